@@ -488,6 +488,10 @@ class AwareASTNode(DataClassSerializeMixin):
 
             c._set_parent(self, f, i)
 
+        # While this node was detached its subtree may have changed without it
+        # being notified (only attached parents are), so the cached content id may be stale
+        self._set_content_id()
+
         # Now we can safely attach this node to the registry
         AwareASTNode._nodes[self.id] = self
 
